@@ -816,14 +816,17 @@ pub fn cmd_check(prop_id: &str, tier: &str) -> i32 {
     if harness_errors.is_empty() {
         let mut runs: Vec<u64> = hashes.keys().cloned().collect();
         runs.sort();
-        let k = if tier == "thorough" { 64 } else { 16 };
+        // VERIF_SELFCHECK_RUNS=<n> re-executes n runs of the batch (bin/determinism uses it for the large-sample proof)
+        let k = std::env::var("VERIF_SELFCHECK_RUNS").ok().and_then(|v| v.parse::<usize>().ok()).unwrap_or(if tier == "thorough" { 64 } else { 16 }).max(1);
         let picks: Vec<u64> = if runs.len() <= k {
             runs.clone()
         } else {
             (0..k).map(|i| runs[i * runs.len() / k]).collect()
         };
-        let results: Vec<(u64, Option<u64>)> = std::thread::scope(|s| {
-            let hs: Vec<_> = picks
+        let mut results: Vec<(u64, Option<u64>)> = vec![];
+        for chunk in picks.chunks(16) {
+        let part: Vec<(u64, Option<u64>)> = std::thread::scope(|s| {
+            let hs: Vec<_> = chunk
                 .iter()
                 .map(|run| {
                     let run = *run;
@@ -838,6 +841,8 @@ pub fn cmd_check(prop_id: &str, tier: &str) -> i32 {
                 .collect();
             hs.into_iter().map(|h| h.join().unwrap()).collect()
         });
+        results.extend(part);
+        }
         for (run, h) in results {
             det_checked += 1;
             if h != hashes.get(&run).cloned() {
@@ -846,6 +851,16 @@ pub fn cmd_check(prop_id: &str, tier: &str) -> i32 {
         }
     }
 
+    let batch_trace_hash = {
+        let mut hs: Vec<(u64, u64)> = hashes.iter().map(|(k, v)| (*k, *v)).collect();
+        hs.sort();
+        let mut bytes = vec![];
+        for (k, v) in hs {
+            bytes.extend_from_slice(&k.to_le_bytes());
+            bytes.extend_from_slice(&v.to_le_bytes());
+        }
+        format!("{:016x}", crate::rng::fnv(&bytes))
+    };
     // ---- violations: minimise the first, report
     let mut exit = 0;
     let mut reported: Option<(Violation, String)> = None;
@@ -946,7 +961,7 @@ pub fn cmd_check(prop_id: &str, tier: &str) -> i32 {
             "steps_total": agg.steps,
             "fault_kinds_fired": agg.fired,
             "reach_probes": agg.probes,
-            "determinism_selfcheck": {"runs_re_executed_in_fresh_process": det_checked, "mismatches": det_mismatch.len()},
+            "determinism_selfcheck": {"runs_re_executed_in_fresh_process": det_checked, "mismatches": det_mismatch.len(), "batch_trace_hash": batch_trace_hash},
             "known_findings_reobserved": known_count,
             "first_violation": reported.as_ref().map(|(v, path)| json!({"clause": v.clause, "kind": v.kind, "replay": path})),
             "components": {
